@@ -154,3 +154,45 @@ CONTRACTS[A + 'DSG.des_var_nodes'] = dict(
     },
     modifies=[],
 )
+
+
+def _domain_des_var_nodes(n):
+    import os
+    import random
+    from pyvc.replay import segment_callable, SegmentResult
+    from adsg_core.graph.adsg_basic import BasicDSG
+    from adsg_core.graph.adsg_nodes import NamedNode, DesignVariableNode
+    from adsg_core.graph.choice_constraints import ChoiceConstraintType
+    key = A + 'DSG.des_var_nodes'
+    seg = segment_callable(key, dict(CONTRACTS[key], stop_before='return des_var_nodes'), os.environ.get('VERIF_REPO', '/repo'))
+    rng = random.Random(6161 + int(os.environ.get('VERIF_SEED', '0') or 0))
+    for _ in range(n):
+        root = NamedNode('R')
+        k = rng.randint(1, 6)
+        names = [f'd{i}' for i in range(k)]
+        rng.shuffle(names)
+        dvs = [DesignVariableNode(nm, options=['a', 'b', 'c'][:rng.randint(2, 3)]) for nm in names]
+        dsg = BasicDSG()
+        dsg.add_edges([(root, d) for d in dvs])
+        dsg = dsg.set_start_nodes({root})
+        free = list(dvs)
+        rng.shuffle(free)
+        try:
+            while len(free) >= 2 and rng.random() < 0.7:
+                m = rng.randint(2, min(3, len(free)))
+                grp, free = free[:m], free[m:]
+                dsg = dsg.constrain_choices(ChoiceConstraintType.LINKED, grp)
+        except Exception:  # noqa
+            continue
+        env = {'self': dsg}
+
+        def call(dsg=dsg):
+            r = seg(self=dsg)
+            return SegmentResult(list(dsg.des_var_nodes), r.locals, r.stopped)
+        yield (env, call, {'Ref[DesignVariableNode]': list(dvs), 'Int': list(range(-1, 4))},
+               f'DSG(design-variable nodes {[d.name for d in dsg.all_des_var_nodes]}, linked sets '
+               f'{[[x.name for x in c.nodes] for c in dsg._choice_constraints]}).des_var_nodes')
+
+
+DOMAIN = dict(globals().get('DOMAIN', {}))
+DOMAIN[A + 'DSG.des_var_nodes'] = _domain_des_var_nodes
